@@ -8,10 +8,10 @@ NAME="$1"; WT="$2"; CRATE="$3"; DEMOARGS="$4"; shift 4
 [ "$DEMOARGS" = "-" ] && DEMOARGS=""
 cd "$WT" || exit 2
 git checkout -q -- . ; rm -f */tests/seed_demo.rs
-git apply seed/patch.diff || { echo "patch does not apply"; exit 2; }
+git apply ${SEEDDIR:-seed}/patch.diff || { echo "patch does not apply"; exit 2; }
 SUITE=$(cargo test --workspace --no-fail-fast --offline 2>&1 | grep -E '^test result' | head -3 | tr '\n' ' ')
 echo "suite with change: $SUITE"
-mkdir -p $CRATE/tests; cp seed/demo.rs $CRATE/tests/seed_demo.rs
+mkdir -p $CRATE/tests; cp ${SEEDDIR:-seed}/demo.rs $CRATE/tests/seed_demo.rs
 cargo test -p $CRATE --offline --test seed_demo $DEMOARGS > /tmp/seed.$$.with 2>&1; RC_WITH=$?
 git checkout -q -- .
 cargo test -p $CRATE --offline --test seed_demo $DEMOARGS > /tmp/seed.$$.without 2>&1; RC_WITHOUT=$?
@@ -19,9 +19,9 @@ rm -f $CRATE/tests/seed_demo.rs
 echo "demo with change rc=$RC_WITH  ($(grep -E '^test result' /tmp/seed.$$.with | head -1)) ; without rc=$RC_WITHOUT ($(grep -E '^test result' /tmp/seed.$$.without | head -1))"
 rm -f /tmp/seed.$$.with /tmp/seed.$$.without
 mkdir -p /verif/seeded/$NAME
-cp seed/patch.diff /verif/seeded/$NAME/patch.diff
-cp seed/demo.rs /verif/seeded/$NAME/demo.rs
-cp seed/README.md /verif/seeded/$NAME/README.md 2>/dev/null
+cp ${SEEDDIR:-seed}/patch.diff /verif/seeded/$NAME/patch.diff
+cp ${SEEDDIR:-seed}/demo.rs /verif/seeded/$NAME/demo.rs
+cp ${SEEDDIR:-seed}/README.md /verif/seeded/$NAME/README.md 2>/dev/null
 cd /verif
 RES=$(SHOW=${SHOW:-3} bin/mutant.sh seeded/$NAME/patch.diff "$@" 2>&1)
 echo "$RES" | cut -c1-300
